@@ -41,6 +41,7 @@ class Registry:
         self.inputs = []          # atom indices that are free inputs
         self.pi_atom = None
         self.uninterpreted = 0    # number of atoms whose model value may be spurious
+        self.phase_atoms = set()  # atoms declared as phase offsets: trig(y + z) is expanded by the addition theorem
         self.uf = []              # union-find over atoms (variable-sharing components)
         P.reset_atom_props()
 
@@ -1109,6 +1110,19 @@ def sqrt(x) -> SR:
     if split is not None:
         r = split * coef
         return r
+    # even powers of positive atoms common to every term come out of the root: sqrt(a^2 * R) = a * sqrt(R), a > 0
+    if len(rad.n) > 1 and g:
+        out_m, keep = [], False
+        for at, e in g:
+            if at in P.POSITIVE and e >= 2:
+                out_m.append((at, (e // 2)))
+        if out_m:
+            fac = SR.const(1)
+            for at, h in out_m:
+                fac = fac * SR.atom(at) ** h
+            inner = x / (fac * fac)
+            if len(inner.n) < len(x.n) or inner.key() != x.key():
+                return fac * sqrt(inner)
     # perfect squares of single atoms known non-negative: sqrt(v^2) = v
     k = rad.key()
     hit = REG.sqrt_cache.get(k)
@@ -1221,6 +1235,34 @@ def trig(x: SR):
         r = (hit[0], -hit[1])
         REG.trig_cache[k] = r
         return r
+    pure_offset = False
+    if not x.d and x.n:
+        # (a) periodicity: terms 2*pi*(integer) - an even integer times PI times integer-valued symbols - are dropped
+        if REG.pi_atom is not None:
+            pi_idx = REG.pi_atom.idx
+            keep, dropped = {}, False
+            for m, c in x.n.items():
+                ats = dict(m)
+                if ats.get(pi_idx) == 1 and c.denominator == 1 and c.numerator % 2 == 0 and \
+                        all(a == pi_idx or REG.atoms[a].kind == "ivar" for a in ats):
+                    dropped = True
+                    continue
+                keep[m] = c
+            if dropped:
+                r = trig(SR.mk(keep, {})) if keep else (SR.const(1), ZERO())
+                REG.trig_cache[k] = r
+                return r
+        # (b) declared phase offsets: cos/sin(y + z) by the addition theorem, z = the part that contains offset atoms
+        if REG.phase_atoms:
+            zpart = {m: c for m, c in x.n.items() if any(a in REG.phase_atoms for a, _ in m)}
+            if zpart and len(zpart) < len(x.n):
+                ypart = {m: c for m, c in x.n.items() if m not in zpart}
+                cy, sy = trig(SR.mk(ypart, {}))
+                cz, sz = trig(SR.mk(zpart, {}))
+                r = (cy * cz - sy * sz, sy * cz + cy * sz)
+                REG.trig_cache[k] = r
+                return r
+            pure_offset = bool(zpart)
     ca = REG.new_atom(f"cos!{len(REG.atoms)}", "cos", data=x, fe=lambda env, x=x: math.cos(x.feval(env)), deps=x.atomset())
     sa = REG.new_atom(f"sin!{len(REG.atoms)}", "sin", data=x, fe=lambda env, x=x: math.sin(x.feval(env)), deps=[ca.idx])
     REG.uninterpreted += 1
@@ -1245,6 +1287,8 @@ def trig(x: SR):
                 REG.add_axiom(ax, ca.idx)
     REG.trig_args.append((x, ca.idx, sa.idx))
     REG.trig_cache[k] = r
+    if pure_offset:
+        P.SQUARE_RULES[sa.idx] = (1 - r[0] * r[0]).n        # sin^2 = 1 - cos^2 for the offset phase (normal-form rule)
     return r
 
 
@@ -1254,6 +1298,13 @@ _FN_FE = {
     "rint": lambda v: float(round(v)),
     "floor": lambda v: float(math.floor(v)),
 }
+
+
+def declare_phase_offsets(*xs):
+    """the atoms of these terms are phase offsets (e.g. a rigid translation): see trig()"""
+    for x in xs:
+        x = lift_strict(x)
+        REG.phase_atoms |= set(x.atomset())
 
 
 def _canon_arg(x: SR) -> SR:
@@ -1277,6 +1328,17 @@ def fn_atom(fn: str, x: SR) -> SR:
             return SR.const(_half_even(c))
         if fn == "floor":
             return SR.const(math.floor(c))
+    if fn == "rint" and x.n and not x.d and ENGINE is not None and ENGINE.o.get("rint_pull_integers"):
+        # opt-in (harness states: no argument sits on an exact tie): rint(y + k) = rint(y) + k for integer-valued k,
+        # k = integer constant + integer combinations of products of integer symbols
+        ipart, rest = {}, {}
+        for m, c in x.n.items():
+            if c.denominator == 1 and all(REG.atoms[a].kind == "ivar" for a, _ in m):
+                ipart[m] = c
+            else:
+                rest[m] = c
+        if ipart and rest:
+            return fn_atom("rint", SR.mk(rest, {})) + SR.mk(ipart, {})
     if fn == "rint" and x.n:
         # rint is odd (lemma L4, round-half-even): one symbol per argument up to sign
         lead = max(x.n, key=lambda m: (sum(e for _, e in m), m))
